@@ -360,7 +360,7 @@ def order(P, fn_qual, first_rx, then_rx, all_of_then=True):
 
 
 # ------------------------------------------------------------------------------ GUARD
-def guard(P, fn_qual, rel, a_rx, b_rx=None, err=None, dominates_rx=None, _depth=0):
+def guard(P, fn_qual, rel, a_rx, b_rx=None, err=None, dominates_rx=None, _depth=0, optional=False):
     """F contains a comparison that fails when `A rel B` and whose failing side cannot reach a success return"""
     fn = P.fn(fn_qual)
     body = P.body(fn)
@@ -379,7 +379,10 @@ def guard(P, fn_qual, rel, a_rx, b_rx=None, err=None, dominates_rx=None, _depth=
     if not found and b_rx is not None and not dominates_rx:
         # `opt.is_some_and(|x| a != x)` / `iter.any(|x| a != x)`: the comparison sits in a closure of F and F fails on the closure's
         # verdict. The guard is the outer one (its error), the relation is the closure's (either polarity: `all(==)` and `any(!=)`).
-        outer = [g for g in gs if g.rel in ('truth', 'not') and '{closure' in g.lhs]
+        # an `Option::is_some_and / map_or / is_none_or` form skips the comparison when the option is empty: that is the same guard
+        # only where the reviewed guard was itself conditional on a present value (`optional=True` at the rule instance)
+        outer = [g for g in gs if g.rel in ('truth', 'not') and '{closure' in g.lhs
+                 and (optional or not re.match(r'^Option::(is_some_and|is_none_or|map_or|map_or_else|map|and_then|filter)\(', g.lhs))]
         if outer:
             from .guards import CMP
             for k in P.closures_of(fn['key']):
